@@ -283,6 +283,23 @@ def run(tier):
             sg = np.where(dk > 2.1e-3 * kk[:-1], 1, np.where(dk < 0, -1, 0))
             tr.add({"kind": "mono", "dir": -1, "what": "k non-increasing in d at w=%.4g" % w0, "sg": sg.astype(int).tolist()})
             distinct.add(("mono", rep))
+        # ---- (5b) dense ladders in ONE call (20001 points over the whole range): neighbouring samples are closer than the solver tolerance,
+        # so the order can only survive if every element of the call is iterated alike (Dispersion.tla: SameCount)
+        for rep in range(4 if quick else 40):
+            n = 20001
+            d = math.inf if rep % 4 == 3 else rnd_d(0.0)
+            w = np.exp(np.linspace(math.log(3e-3), math.log(50.0), n))
+            k = solve(w, np.full(n, d))
+            w0 = rnd_w()
+            ds = np.exp(np.linspace(math.log(1e-2), math.log(1e4), n))
+            kk = solve(np.full(n, w0), ds)
+            evals += 2 * n
+            with np.errstate(all="ignore"):
+                okw = bool(np.all(np.diff(k) > 0))
+                okd = bool(np.all(np.diff(kk) <= 1e-13 * kk[:-1]))
+            tr.add({"kind": "flags", "name": "IncreasingInFrequency", "what": "dense frequency ladder (20001 points in one call) at depth %s" % (("%.4g" % d) if math.isfinite(d) else "inf"), "ok": [1 if okw else 0]})
+            tr.add({"kind": "flags", "name": "NonIncreasingInDepth", "what": "dense depth ladder (20001 points in one call) at w=%.4g" % w0, "ok": [1 if okd else 0]})
+            distinct.add(("dense", rep))
         # ---- (6) the spectrum accessors: depth x frequency index map, missing depth = deep --------------------------------------
         classes = ["d1", "d2", "inf"]
         for rep in range(6 if quick else 400):
@@ -344,6 +361,26 @@ def run(tier):
                 tr.add({"kind": "accessor", "what": "%s of a %s spectrum, layout %s" % (name, kind, layout), "dcls": dcls, "classes": classes,
                         "match": match, "depths": {k: (v if math.isfinite(v) else str(v)) for k, v in dval.items()}})
             distinct.add(("accessor", layout, kind, tuple(dcls)))
+            # the depth is replaced on the same object (spectrum.dataset["depth"] = ...): the accessors describe the object as it is now
+            if npts >= 2 and layout != "flat":
+                dcls2 = dcls[1:] + dcls[:1]
+                dep2 = np.array([dval[c] for c in dcls2]).reshape(lead)
+                try:
+                    s.dataset["depth"] = (s.dataset["depth"].dims, dep2)
+                    acc2 = {"wavenumber": np.asarray(s.wavenumber.values), "wavelength": np.asarray(s.wavelength.values),
+                            "wave_speed": np.asarray(s.wave_speed().values), "group_velocity": np.asarray(s.group_velocity.values)}
+                except Exception as e:
+                    chk.violation("raise:accessor-after-depth-change:%s" % type(e).__name__, "an accessor raised after the depth was replaced", {"layout": layout, "error": str(e)[:300]})
+                    continue
+                evals += npts * nf * 4
+                for name, arr in acc2.items():
+                    if arr.size != npts * nf:
+                        chk.violation("accessor-shape-after-depth-change:%s" % name, "%s has the wrong shape after the depth was replaced" % name, {"layout": layout, "shape": list(arr.shape)})
+                        continue
+                    rows = arr.reshape(-1, nf)
+                    match = [[1 if np.allclose(rows[i], tab[c][name], rtol=3e-3, atol=0.0) else 0 for c in classes] for i in range(npts)]
+                    tr.add({"kind": "accessor", "what": "%s of a %s spectrum, layout %s, after the depth was replaced on the object" % (name, kind, layout), "dcls": dcls2,
+                            "classes": classes, "match": match, "depths": {k: (v if math.isfinite(v) else str(v)) for k, v in dval.items()}})
         # ---- binding demonstration: corrupted records must be rejected -------------------------------------------------------------
         bt = Trace(os.path.join(work, "bind.ndjson"))
         bt.add({"kind": "call", "what": "corrupt", "pos": [1, 1], "res": [1, 0], "same": [1, 1]})
